@@ -146,3 +146,6 @@ pub fn c04_record_eq_implies_hash_eq() {
         assert!(h1.same(&h2));
     }
 }
+
+// A harness comparing two flat names of at most 6 octets (name_eq / == / name_cmp / Hash against a label-wise
+// reference) ran out of memory in CBMC after 22 min and was removed: names across representations are not covered.
